@@ -1,7 +1,7 @@
 (* C06 -- container prefixing changes neither interpretation nor source mapping of content.  Statements only;
    proofs in proofs/QuoteProofs.v; see DESIGN.md section 6 C06. *)
 From Coq Require Import String.
-From MdIt Require Import Prims Tables Tree Render Block Core Dump Dispatch QuoteProofs.
+From MdIt Require Import Prims Tables Tree Render Block Core Dump Dispatch QuoteProofs ShiftProofs.
 Local Open Scope string_scope.
 Local Open Scope list_scope.
 Local Open Scope N_scope.
@@ -41,8 +41,44 @@ Theorem C06_quote_lines_are_shifted_lines : forall cfg st0, b_blk st0 = 0 -> for
     (forall j, (j < start)%nat -> nth_error lines' j = nth_error lines j).
 Proof. exact quote_scan_rewrites. Qed.
 
+(* THE SECOND HALF, BLOCK LEVEL (ShiftProofs): the block rules are insensitive to the shift.  For every prefix P of ASCII
+   bytes without tabs, every state whose line texts are ASCII without tabs (first non-blank offset inside the text,
+   indentation not larger than that offset -- true of every untouched tab-free line and kept by the containers), every
+   chain of block rules and every fuel: tokenizing the shifted state (texts P ++ t, content offsets + |P|, same
+   indentation; tree positions + |P|) gives exactly the shifted result of tokenizing the state itself -- same blocks,
+   same contents, same lines consumed, same reference map, every recorded position (ranges and the position tables of
+   inline content) moved by |P|.  All eleven rules, the three local loops, paragraph/heading scans, quote scan, list
+   item loop, tight-list flattening, the no-rule fallback, the nested tokenizer.
+   And put together with the first half: the quote rule applied to the document "> " ++ T_1 .. "> " ++ T_n returns, as the
+   content of the quote, the shifted tree of T_1 .. T_n tokenized in a quote shell at nesting level 1.
+   NOT proved: the same for the inline pass (ranges of inline nodes follow the shifted position tables), the comparison
+   with D parsed at level 0 (level 1 vs 0 only matters at the nesting limit), the HTML wrapper, the list-item half. *)
+Theorem C06_block_tokenizer_shift_invariant : forall P, atf P = true -> forall cfg fuel st, sinv st ->
+  btokenize fuel cfg (sh P st) = fmap (sh P) (btokenize fuel cfg st).
+Proof. exact btokenize_sh. Qed.
+
+Theorem C06_quote_of_prefixed_document : forall cfg f texts root refs, texts <> [] -> Forall (fun T => atf T = true) texts ->
+  let n := length texts in
+  let st0 := BState (map qline texts) root 0 0 n false None 0 refs in
+  let innerD := BState (map mk_line texts) (mk KBlockquote None []) 0 0 n false None 1 refs in
+  rule_quote cfg (btokenize f cfg) st0 =
+    do inner' <- fmap (sh QP) (btokenize f cfg innerD);
+    let st' := BState (map qline texts) root 0 (b_line inner') n (b_tight inner') (b_list_indent inner') 0 (b_refs inner') in
+    do mp <- get_map st' 0 (b_line inner' - 1);
+    ret (push_node st' (set_map (b_node inner') mp), true).
+Proof. exact quote_of_prefixed_document. Qed.
+
+(* non-vacuity: the invariant holds for the line records of tab-free ASCII texts, and the shift is what it says *)
+Example C06_shift_nonvacuous :
+  atf (bs "  - a `b`") = true /\ sh_rec QP (mk_line (bs "  - a")) = LRec (bs ">   - a") 4 2%Z /\
+  sh_node QP (mk KParagraph (Some (SRel 3 2, SRel 4 7)) [mk (KInlineRoot (bs "x") [(0, SRel 3 2)]) None []]) =
+  mk KParagraph (Some (SRel 3 4, SRel 4 9)) [mk (KInlineRoot (bs "x") [(0, SRel 3 4)]) None []].
+Proof. vm_compute. repeat split; reflexivity. Qed.
+
 Example C06_nonvacuous :
   shifted (bs "  - a") = LRec (bs ">   - a") 4 2%Z /\ mk_line (bs "  - a") = LRec (bs "  - a") 2 2%Z.
 Proof. vm_compute. split; reflexivity. Qed.
 
 Print Assumptions C06_quote_lines_are_shifted_lines.
+Print Assumptions C06_block_tokenizer_shift_invariant.
+Print Assumptions C06_quote_of_prefixed_document.
